@@ -24,7 +24,7 @@ func init() {
 			"(f) the panicking converters util.SlotToInt64/EpochToInt64 receive only duty/request/clock values, never a value read from a beacon-node response; (g) optional configuration values are dereferenced only after a test of the same field (C10.a); " +
 			"(h) math/rand.Intn-style calls receive an argument known to be positive. " +
 			"Input-space assumption: go-eth2-client v0.21.11 and go-builder-client v0.5.1 decoders reject missing source/target, block message/body and default missing numeric values to 0 (read, not analysed). " +
-			"Added with the third seeding round: (k) what is wrapped into the ExecutionConfigurator interface is an object or a nil-tested pointer; (l) an insert into outer[k][...] is preceded on every path by the creation of outer[k] or a presence test on a map filled together with it. Added with the fourth seeding round: (m) results of program functions that can be nil without an error are nil-tested; (n) indices taken from JSON-decoded locals are range-tested; (o) bids remembered between rounds are verified ones (shared with C09.a). Added with the fifth seeding round: (q) a byte collection is addressed with a position only behind a test against the length of that same collection. NOT decided: arithmetic faults (division by a zero spec value, huge allocations), value-dependent index-out-of-range, panics inside libraries.",
+			"Added with the third seeding round: (k) what is wrapped into the ExecutionConfigurator interface is an object or a nil-tested pointer; (l) an insert into outer[k][...] is preceded on every path by the creation of outer[k] or a presence test on a map filled together with it. Added with the fourth seeding round: (m) results of program functions that can be nil without an error are nil-tested; (n) indices taken from JSON-decoded locals are range-tested; (o) bids remembered between rounds are verified ones (shared with C09.a). Added with the fifth seeding round: (q) a byte collection is addressed with a position only behind a test against the length of that same collection. Added with the sixth seeding round and the false-alarm regression: (x) no dereference of a call's result on a path that continues after its error was found non-nil; (d, tightened) as C12.i. NOT decided: arithmetic faults (division by a zero spec value, huge allocations), value-dependent index-out-of-range, panics inside libraries.",
 		Technique:   "crash-shape rules over SSA of every production function: error-edge path queries (use-after-failed-call), maybe-nil phi analysis, per-leaf length provenance of slice-to-array conversions, nil-guard queries on decoded pointer collections with unmarshaler validation summaries, registration/assertion table agreement, argument provenance of panicking helpers",
 		Rule:        "one obligation per crash-shaped site found (a-d,f,h), per type assertion on event data (e); the sweep covers every production function",
 		Assumptions: []string{"decoder contracts of go-eth2-client v0.21.11 / go-builder-client v0.5.1 as read (non-nil Data on nil error; non-nil Source/Target/Message/Body)"},
@@ -816,6 +816,10 @@ func collectionValidated(p *core.Prog, ds *core.Describer, id core.FieldID) bool
 		}
 		cd := ds.D(coll)
 		if !(cd.Kind == "field" && cd.Name == id.Name) {
+			return
+		}
+		// the collection tested is the decoded document's, not the receiver's own (still empty) field of the same name
+		if len(f.Params) > 0 && len(cd.Args) > 0 && cd.Args[0].Kind == "param" && cd.Args[0].Name == f.Params[0].Name() {
 			return
 		}
 		// the nil edge reaches an error return
